@@ -68,7 +68,7 @@ rc::Gen<vh::Case> vh_gen(const vh::Opts&) {
     else if (sel < 88) op = {3, *vh::irange<int>(0, 2)};
     else if (sel < 92) op = {4, *vh::irange<int>(0, 6)};
     else if (sel < 96) op = {5, *vh::irange<int>(0, 7), *vh::irange<int>(0, 7), *vh::irange<int>(0, 3)};
-    else op = {6, *vh::irange<int>(0, 7), *vh::irange<int>(0, 11), *vh::irange<int>(0, 20)};
+    else op = {6, *vh::irange<int>(0, 7), *vh::irange<int>(0, 35), *vh::irange<int>(0, 20)};
     return op;
   });
   // cfg[6]: 0 = layout by flatten() (75%), otherwise the user lays the sections out with Section::set_offset(): gaps around the range
@@ -236,14 +236,21 @@ void vh_run(const vh::Case& c, vh::Ctx& ctx) {
       } else if (arch != A_A64) {
         static const RK xk[] = {X_JMP, X_JMP_SHORT, X_JCC, X_JCC_SHORT, X_CALL, X_JECXZ, X_LOOP, X_LEA, X_MEM_IMM8, X_MEM_IMM32, D_EMBED_LABEL, X_JMP, X_JCC, X_LEA};
         r.kind = xk[uint64_t(arg(1)) % 14];
+        // prefixed variants (arg 4 == 3): a prefix byte is emitted before the opcode, so the displacement of a reference to an already
+        // bound label must still be relative to the END of the whole instruction: 67h (jecxz/loop with the other counter width),
+        // REX (rex().jmp/call in 64-bit mode), 3E/2E branch hints (taken()/not_taken() with EncodingOptions::kPredictedJumps)
+        bool prefixed = (uint64_t(arg(4)) % 4) == 3;
+        if (prefixed && (r.kind == X_JCC || r.kind == X_JCC_SHORT)) xa.add_encoding_options(EncodingOptions::kPredictedJumps);
+        if (prefixed) ctx.cls("x86_branch_with_prefix_byte");
         switch (r.kind) {
-          case X_JMP: r.addend = 0; e = xa.jmp(L); break;
+          case X_JMP: if (prefixed && mode == 64) { r.addend = 0; e = xa.rex().jmp(L); break; }
+                      r.addend = 0; e = xa.jmp(L); break;
           case X_JMP_SHORT: r.addend = 0; e = xa.short_().jmp(L); break;
-          case X_JCC: r.addend = 0; e = xa.jnz(L); break;
-          case X_JCC_SHORT: r.addend = 0; e = xa.short_().jb(L); break;
-          case X_CALL: r.addend = 0; e = xa.call(L); break;
-          case X_JECXZ: r.addend = 0; e = mode == 64 ? xa.jecxz(x86::rcx, L) : xa.jecxz(x86::ecx, L); break;
-          case X_LOOP: r.addend = 0; e = mode == 64 ? xa.loop(x86::rcx, L) : xa.loop(x86::ecx, L); break;
+          case X_JCC: r.addend = 0; e = prefixed ? xa.taken().jnz(L) : xa.jnz(L); break;
+          case X_JCC_SHORT: r.addend = 0; e = prefixed ? xa.not_taken().short_().jb(L) : xa.short_().jb(L); break;
+          case X_CALL: r.addend = 0; e = (prefixed && mode == 64) ? xa.rex().call(L) : xa.call(L); break;
+          case X_JECXZ: r.addend = 0; e = prefixed ? (mode == 64 ? xa.jecxz(x86::ecx, L) : xa.jecxz(x86::cx, L)) : (mode == 64 ? xa.jecxz(x86::rcx, L) : xa.jecxz(x86::ecx, L)); break;
+          case X_LOOP: r.addend = 0; e = prefixed ? (mode == 64 ? xa.loop(x86::ecx, L) : xa.loop(x86::cx, L)) : (mode == 64 ? xa.loop(x86::rcx, L) : xa.loop(x86::ecx, L)); break;
           case X_LEA: e = mode == 64 ? xa.lea(x86::rax, x86::ptr(L, int32_t(r.addend))) : xa.lea(x86::eax, x86::ptr(L, int32_t(r.addend))); break;
           case X_MEM_IMM8: e = xa.add(x86::dword_ptr(L, int32_t(r.addend)), 5); break;
           case X_MEM_IMM32: e = xa.add(x86::dword_ptr(L, int32_t(r.addend)), 0x12345678); break;
@@ -293,7 +300,13 @@ void vh_run(const vh::Case& c, vh::Ctx& ctx) {
     }
     else if (k == 6 && g_c04) {
       Ref r; r.sec = cur; r.off0 = off();
-      r.abs_target = kAbsTargets[uint64_t(arg(2)) % (sizeof(kAbsTargets) / sizeof(kAbsTargets[0]))];
+      {
+        // targets 0..11: fixed addresses; 12..35: addresses at the edge of the rel32 range seen from this very site (exact for sites in
+        // .text, whose offset in the image is 0; near the edge for other sections): site -+ 2 GiB with deltas -2..+9 around it
+        uint64_t ti = uint64_t(arg(2)) % 36;
+        if (ti < 12 || arch == A_A64 || mode == 32) r.abs_target = kAbsTargets[ti % 12];
+        else { uint64_t k2 = ti - 12; int64_t delta = int64_t(k2 % 12) - 2; bool neg = k2 >= 12; r.abs_target = base + uint64_t(off()) + uint64_t(neg ? -(int64_t(1) << 31) + delta : (int64_t(1) << 31) + delta); ctx.cls("abs_target_at_rel32_edge"); }
+      }
       int sel = int(uint64_t(arg(1)) % 8);
       Error e = Error::kOk;
       if (arch == A_A64) {
@@ -472,7 +485,13 @@ void vh_run(const vh::Case& c, vh::Ctx& ctx) {
     if (fits) {
       if (d.disp != need) FAIL(std::string("wrong-displacement:") + an + ":" + rk_name(r.kind), where + " :: " + d.form + " encodes " + std::to_string(d.disp) + ", target is " + std::to_string(need) + " from the end of the instruction; program: " + trace);
       judged++; if (is_abs_kind) reloc_judged++;
-    } else { if (!is_abs_kind) expect_unresolved++; CLS("unrepresentable_reference"); }
+    } else {
+      if (!is_abs_kind) expect_unresolved++;
+      // an absolute target that is NOT reachable with rel32 must not be encoded as a direct rel32 branch (the address table exists for it)
+      else if (relocated && (r.kind == X_ABS_JMP || r.kind == X_ABS_CALL) && mode == 64)
+        FAIL(std::string("abs-target-out-of-rel32-range-encoded-directly:") + an, where + " :: " + d.form + " with displacement " + std::to_string(d.disp) + " but the target is " + std::to_string(need) + " away; program: " + trace);
+      CLS("unrepresentable_reference");
+    }
   }
   }  // phase
   // the number of unresolved references is zero exactly when none remain
